@@ -789,6 +789,8 @@ class Joiner:
         self.s2 = s2
         self.widen = widen
         self.thr = thresholds
+        self.only1 = []     # candidate facts that hold in s1 only (over result atoms)
+        self.only2 = []
         self.structs = []   # (value1, value2, joined) of structs seen at a loop-head join
         self.changed = []   # (alpha, lin1, lin2)
         self.kept = set()   # atoms kept identical
@@ -951,9 +953,14 @@ class Joiner:
                             continue
                         g1 = fa[j].sub(fa[i]).addc(-c)
                         g2 = fb[j].sub(fb[i]).addc(-c)
-                        if s1.prove(g1, 1) and s2.prove(g2, 1):
+                        p1, p2 = s1.prove(g1, 1), s2.prove(g2, 1)
+                        if p1 and p2:
                             out.facts.add(g)
                             break
+                        elif p1:
+                            self.only1.append(g)
+                        elif p2:
+                            self.only2.append(g)
 
     def _diffs(self):
         """Induction variables that advance by the same constant step keep
@@ -1213,11 +1220,15 @@ class Joiner:
             if g in out.facts:
                 continue
             if fresh.isdisjoint(g.d.keys()):
-                if s1.prove(g, 1) and s2.prove(g, 1):
-                    self._add_fact(g)
-                continue
-            if s1.prove(g.subst(sub1), 1) and s2.prove(g.subst(sub2), 1):
+                p1, p2 = s1.prove(g, 1), s2.prove(g, 1)
+            else:
+                p1, p2 = s1.prove(g.subst(sub1), 1), s2.prove(g.subst(sub2), 1)
+            if p1 and p2:
                 self._add_fact(g)
+            elif p1:
+                self.only1.append(g)
+            elif p2:
+                self.only2.append(g)
 
     def _add_fact(self, g):
         if self.out.lb(g) >= 0:
